@@ -137,11 +137,22 @@ pub enum Exec {
     Rejected(String),
 }
 
-#[derive(Clone, Debug, PartialEq, Default)]
+#[derive(Clone, Debug, Default)]
 pub struct Deltas {
     pub fung: [i128; 2],
     pub nf_added: BTreeSet<u64>,
     pub nf_removed: BTreeSet<u64>,
+    /// from the receipt's Burn*ResourceEvent events (not part of equality / the Coq case)
+    pub burned_f: [i128; 2],
+    pub burned_n: Vec<u64>,
+    /// balance changes of vaults other than the account's three vaults, for the three resources
+    pub other_vault_changes: usize,
+}
+
+impl PartialEq for Deltas {
+    fn eq(&self, o: &Deltas) -> bool {
+        self.fung == o.fung && self.nf_added == o.nf_added && self.nf_removed == o.nf_removed
+    }
 }
 
 pub struct Sim {
@@ -312,8 +323,24 @@ impl Sim {
             TransactionResult::Commit(c) => match &c.outcome {
                 TransactionOutcome::Success(_) => {
                     let mut d = Deltas::default();
+                    for (id, data) in &c.application_events {
+                        let EventTypeIdentifier(Emitter::Method(node, _), name) = id else { continue };
+                        let Some(i) = self.res.iter().position(|r| r.as_node_id() == node) else { continue };
+                        if name == "BurnFungibleResourceEvent" {
+                            let e: BurnFungibleResourceEvent = scrypto_decode(data).unwrap();
+                            d.burned_f[i] += attos_of(e.amount);
+                        } else if name == "BurnNonFungibleResourceEvent" {
+                            let e: BurnNonFungibleResourceEvent = scrypto_decode(data).unwrap();
+                            d.burned_n.extend(e.ids.iter().map(id_u64));
+                        }
+                    }
                     for (node, (res, ch)) in c.vault_balance_changes() {
-                        let Some(i) = self.vaults.iter().position(|v| v == node) else { continue };
+                        let Some(i) = self.vaults.iter().position(|v| v == node) else {
+                            if self.res.contains(res) {
+                                d.other_vault_changes += 1;
+                            }
+                            continue;
+                        };
                         assert_eq!(*res, self.res[i]);
                         match ch {
                             BalanceChange::Fungible(x) => d.fung[i] = attos_of(*x),
@@ -982,6 +1009,7 @@ impl Oracle {
             fung: [self.vaults[0].amt - init_fung[0], self.vaults[1].amt - init_fung[1]],
             nf_added: self.vaults[2].ids.difference(&init).cloned().collect(),
             nf_removed: init.difference(&self.vaults[2].ids).cloned().collect(),
+            ..Default::default()
         }
     }
 }
